@@ -101,6 +101,9 @@ func (s *server) serve(c net.Conn, arrivals chan<- *arrival) {
 			continue
 		}
 		a.fn = a.req.SFuncName
+		if a.fn == "tars_ping" {
+			continue // keep-alive ping (one-way): nothing to answer, not a call of the behaviour
+		}
 		arrivals <- a
 	}
 }
